@@ -26,7 +26,7 @@ from . import oracle
 from .rules_summary import build_tree, _attr_stubs
 
 WHAT = {
-    "J7": "the sanitiser's character table covers every code point XML 1.0 forbids (and no ordinary character)",
+    "J7": "the sanitiser, evaluated on boundary code points, removes every code point XML 1.0 forbids and alters no ordinary character",
     "J1": "user-controlled text reaches XML attributes / CDATA only through the sanitisers; nothing deletes characters after the ']]>' neutralisation",
     "J2": "tests/errors/failures/skipped counters equal the appended test cases and their child entries",
     "J3": "a failed/errored scenario carries exactly one failure/error entry that names the responsible step (also a background step)",
